@@ -88,11 +88,20 @@ def run(chk):
         cd["mss"] = rng.choice([None, 64, 200, 1460])
         jobs.append(dict(conns=[cd], tsjitter=rng.choice([0, 0, rng.randrange(1, 1 << 30)])))
     # cuts inside reordered / duplicated flights
-    for st in [(1, 2), (2, 1, 1)]:
-        bl = c05.gen_behaviours(chk, st, dict(MaxHeld="2", MaxDup="1"), 10 if quick else 60, seed=chk.seed)
+    # (a cut between a reordered segment and the one that fills the hole is the interesting place: reordered schedules first,
+    #  every cipher-state kind -- an out-of-order record is exported only by kinds that can decrypt it out of order)
+    nre = 0
+    for st in [(1, 2), (2, 1, 1), (2, 1)]:
+        bl = c05.gen_behaviours(chk, st, dict(MaxHeld="2", MaxDup="1"), 30 if quick else 200, seed=chk.seed)
         rng.shuffle(bl)
-        for i, b in enumerate(bl[: 10 if quick else 150]):
-            jobs.append(c05.scenario(b, st, c05.KINDS[i % len(c05.KINDS)], rng.randrange(1 << 30)))
+        reordered = [b for b in bl if [h["st"] for h in b["hist"] if not h["dup"]] != sorted(h["st"] for h in b["hist"] if not h["dup"])]
+        rest = [b for b in bl if b not in reordered]
+        for i, b in enumerate(reordered[: 40 if quick else 400] + rest[: 8 if quick else 100]):
+            sc = c05.scenario(b, st, c05.KINDS[i % len(c05.KINDS)], rng.randrange(1 << 30))
+            if sc is not None:
+                nre += b in reordered
+                jobs.append(sc)
+    chk.extra["reordered_schedules_cut_everywhere"] = nre
     results = pool_map(_one, jobs, chunksize=1)
     truns = []
     for res in results:
